@@ -329,7 +329,7 @@ impl Property for C02 {
         format!(
             "every event program (forest) with 1..={} events (per configuration: third number), delays from {{0,1,t-1,t,t+1,Y,Y+1}}, x start time in {{0,5,Y+1}} x (n,t,max events) in {:?}, run on the real Runtime; \
              per program: one plain run + a probe add_event(now - d), d in {{0 (must be accepted), 1, t, start}}, placed before run and inside every handler; for programs of up to 3 (quick) / 4 (thorough) events also: start, dispatch_n_events(k) for every k, dispatch_events_until(start time) (must not set the clock back), add_event from outside at every time around the program's timestamps that is not in the past of the paused runtime, run to the end (clock and timestamps must stay right); \
-             plus one forced two-thread schedule (a Builder::build in another thread waits for the simulation lock while a simulation is paused between two steps: the paused clock must not move, later handlers still observe their own timestamps, the visitor gets its own start time); plus, at the network level, messages injected through Runtime::add_message_onto / handle_message_on at 8 offsets around the reported time (before run and while paused, 4 start times): past ones must be rejected, the others handled at exactly their time; a case is one (program, start, config, probe placement) and all are distinct by construction; non-trivial = at least 2 events or a probe",
+             plus one forced two-thread schedule (a Builder::build in another thread waits for the simulation lock while a simulation is paused between two steps: the paused clock must not move, later handlers still observe their own timestamps, the visitor gets its own start time); plus 8 programs of 1200 events around 400 consecutive bucket boundaries beyond 2^24 s of simulated time (1 ns before, 1 ns after, half a bucket after each; bucket widths 0.1 s to 99.9 s; start time zero and just before the first boundary); plus, at the network level, messages injected through Runtime::add_message_onto / handle_message_on at 8 offsets around the reported time (before run and while paused, 4 start times): past ones must be rejected, the others handled at exactly their time; a case is one (program, start, config, probe placement) and all are distinct by construction; non-trivial = at least 2 events or a probe",
             tier.pick(4, 5),
             cfgs(tier)
         )
@@ -341,7 +341,7 @@ impl Property for C02 {
         ]
     }
     fn required_features(&self, _tier: Tier) -> Vec<&'static str> {
-        vec!["plain_run", "probe_past_before_run", "probe_past_in_handler", "probe_now_in_handler", "program_with_zero_delay_child", "program_spanning_a_year", "external_add_while_paused", "net_injection_into_the_past", "net_injection_at_or_after_now", "builder_waiting_in_another_thread"]
+        vec!["plain_run", "probe_past_before_run", "probe_past_in_handler", "probe_now_in_handler", "program_with_zero_delay_child", "program_spanning_a_year", "external_add_while_paused", "net_injection_into_the_past", "net_injection_at_or_after_now", "builder_waiting_in_another_thread", "program_beyond_2^24_seconds"]
     }
     fn explore(&self, ctx: &mut Ctx) {
         if ctx.is_first_shard() {
@@ -352,6 +352,37 @@ impl Property for C02 {
                 Ok(Ok(o)) => ctx.outcome(o),
                 Ok(Err(d)) => ctx.violation("violation", || json!({"probe": "waiting_builder"}), d),
                 Err(m) => ctx.violation("violation", || json!({"probe": "waiting_builder"}), format!("panicked: {m}")),
+            }
+        }
+        // programs far from zero: events around bucket boundaries beyond 2^24 s of simulated time
+        // (1 ns is below the resolution of an f64 second count there), with start time zero and far
+        for (i, (n, t)) in [(4usize, 1_100_000_000u64), (8, 99_900_000_000), (16, 100_000_000), (3, 4_900_000_000)].iter().enumerate() {
+            for far_start in [false, true] {
+                if !ctx.mine_key(2 * i as u64 + u64::from(far_start)) {
+                    continue;
+                }
+                let first = ((1u64 << 24) * 1_000_000_000).div_ceil(*t) + 2;
+                let start = if far_start { (first - 1) * t - 7 } else { 0 };
+                let mut roots = vec![];
+                let mut children = vec![];
+                for k in 0..400u64 {
+                    let b = (first + k) * t - start;
+                    let id = roots.len() as u32;
+                    roots.push((id, b + t / 2));
+                    roots.push((id + 1, b + 1));
+                    roots.push((id + 2, b - 1));
+                    children.extend([vec![], vec![], vec![]]);
+                }
+                let cfg = RtCfg { n: *n, t: *t, start };
+                let prog = Arc::new(Program { roots, children });
+                ctx.begin(|| case_json(cfg, &prog, ProbeSpec::None));
+                ctx.out.evaluations += 1;
+                ctx.out.traces += 1;
+                ctx.hit("program_beyond_2^24_seconds");
+                match run_case(cfg, &prog, ProbeSpec::None) {
+                    Ok(o) => ctx.outcome(o),
+                    Err(d) => ctx.violation("violation", || case_json(cfg, &prog, ProbeSpec::None), d),
+                }
             }
         }
         // net level: injections through add_message_onto / handle_message_on
